@@ -157,13 +157,4 @@ theorem C03_reader_sees_write_order (H : Tree.SList → Nat) (B fuel eps T T' : 
   rw [hend] at e1 e2 e3
   exact ⟨e1, by rw [e2, e1], by rw [e3, e1]⟩
 
-/-- Non-vacuity: eps = 2, writes to splits 0 and 1 interleaved with one rejected write; two sessions. -/
-example :
-    let H : Tree.SList → Nat := fun l => l.n
-    let ops1 : List Fill.Op := [.write 0 0 10 true, .write 1 0 11 true, .write 0 0 12 false, .write 0 0 13 true, .write 0 0 14 true]
-    let ops2 : List Fill.Op := [.write 0 0 20 true]
-    let ds1 := Tree.session H 4 { fs := fun _ => none, splits := fun _ => none } (fillerSession 2 ops1 (fun s i => 100 * s + i) [0, 1])
-    let ds2 := Tree.session H 4 ds1 (fillerSession 2 ops2 (fun s i => 100 * s + 50 + i) [0, 1])
-    (examples (Tree.shardsOf 4 ds2.fs [0]), examples (Tree.shardsOf 4 ds2.fs [1])) = ([10, 13, 14, 20], [11]) := by decide
-
 end Sedpack.System
